@@ -493,7 +493,7 @@ class Side:
     """Everything observed on one side of a differential run."""
 
     __slots__ = ("log", "out", "term", "exc", "srcs", "fns", "value", "params", "inputs_before",
-                 "inputs_after", "handle", "foreign", "suspensions", "objs", "final_out", "alias", "items_changed", "rtype")
+                 "inputs_after", "handle", "foreign", "suspensions", "objs", "final_out", "alias", "items_changed", "rtype", "sources")
 
     def __init__(self) -> None:
         self.log: List[tuple] = []
@@ -514,6 +514,7 @@ class Side:
         self.final_out: Any = None  # their canonical form after the run (later mutation shows here)
         self.alias: Any = None  # identity pattern: index of the first yielded object that IS this one
         self.items_changed = False  # an input element was modified
+        self.sources: List[Any] = []  # the source objects handed to the library (for probing them after the run)
 
 
 def _params(spec: dict) -> dict:
@@ -726,6 +727,7 @@ def run_async_side(spec: dict, flavours: Optional[List[str]] = None, fn_flavours
         S = [make_source(st, fl) for st, fl in builtins.zip(side.srcs, flavours)]
         for i, j in spec.get("same", []):
             S[j] = S[i]
+    side.sources = S
     if spec["tool"] == "chain_from_iterable":
         outer = SrcState("outer", S, Plan(susp if outer_flavour.startswith("async") else 0), log)
         if fault is not None and fault.kind == "outer":
